@@ -1,12 +1,15 @@
 #!/bin/sh
 # usage: verify_seed.sh <Cxx> [name]  -- confirm an agent's seeded change in its scratch worktree /tmp/wt/<name> and copy it to /verif/seeded/<id>
+# (no git stash: the stash is shared by all worktrees of a repository; the worktree is first reset to exactly the agent's patch.diff)
 P=$1; N=${2:-$1}; WT=/tmp/wt/$N; OUT=/verif/seeded/$N
 mkdir -p $OUT; cp $WT/_out/patch.diff $WT/_out/demo.py $WT/_out/meta.json $OUT/ 2>/dev/null
 cd $WT
+git checkout -q -- mdtraj 2>/dev/null; git apply $OUT/patch.diff || { echo "patch does not apply on a clean worktree: $N"; exit 3; }
+/venv/bin/python /tmp/wt-tools/rebuild_ext.py $WT > /dev/null 2>&1
 ( PYTHONPATH=$WT timeout 600 /venv/bin/python _out/demo.py > $OUT/demo_with_change.log 2>&1; echo "with_change_exit=$?" > $OUT/verify.txt )
 /venv/bin/python /tmp/wt-tools/baseline_check.py $WT > $OUT/baseline_with_change.log 2>&1; echo "baseline_exit=$?" >> $OUT/verify.txt
-git stash -q; if git diff --quiet -- mdtraj/*/src mdtraj/*/*/src 2>/dev/null; then :; fi
+git apply -R $OUT/patch.diff
 /venv/bin/python /tmp/wt-tools/rebuild_ext.py $WT > /dev/null 2>&1
 ( PYTHONPATH=$WT timeout 600 /venv/bin/python _out/demo.py > $OUT/demo_without_change.log 2>&1; echo "without_change_exit=$?" >> $OUT/verify.txt )
-git stash pop -q; /venv/bin/python /tmp/wt-tools/rebuild_ext.py $WT > /dev/null 2>&1
+git apply $OUT/patch.diff; /venv/bin/python /tmp/wt-tools/rebuild_ext.py $WT > /dev/null 2>&1
 cat $OUT/verify.txt | tr '\n' ' '; echo " $N"
